@@ -3,6 +3,8 @@ from ..agree import rule_A3, rule_Q1_Q2
 from ..pathrules import rule_T8ii
 from ..persist import rule_P4_bound, rule_P1_P2, persist_classes
 from ..shape import rule_N2
+from ..lockstep import ExpandingTracker
+from .C13 import rule_T9, G_UNION
 
 LEVEL_TEXT = ('Weak structural claim only: the pool path merges exactly the counters the serial '
               'path advances; counters describe the rows actually cached; acceptance depends on '
@@ -11,12 +13,16 @@ LEVEL_TEXT = ('Weak structural claim only: the pool path merges exactly the coun
 
 
 def run(ctx):
+    prog = ctx.program
     rule_A3(ctx)
     rule_T8ii(ctx, 'Union.sample')
     rule_T8ii(ctx, 'NautilusBound.sample')
     rule_Q1_Q2(ctx)
     rule_N2(ctx)
-    prog = ctx.program
+    for q in ('Union.split', 'Union.trim'):     # counters restart when the member set changes
+        fq = prog.func(q)
+        rule_T9(ctx, fq, ExpandingTracker(fq, G_UNION.members + ['log_v_all'],
+                                          arrays={'block', 'log_v_all'}))
     for cname in ('Union', 'NautilusBound'):
         rule_P4_bound(ctx, prog.cls(cname))
     ctx.floor('A3', 5, 'merge obligations')
